@@ -248,6 +248,6 @@ def strategy():
 def phases(tier):
     quick = tier == 'quick'
     return [
-        Phase('start-end-pairs', check_case, gen=gen_pairs(3 if quick else 5), exhaustive=True),
-        Phase('options-and-faults', check_case, strategy=strategy, examples=3000 if quick else 80000),
+        Phase('start-end-pairs', check_case, gen=gen_pairs(4 if quick else 6), exhaustive=True),
+        Phase('options-and-faults', check_case, strategy=strategy, examples=6000 if quick else 200000),
     ]
